@@ -110,6 +110,11 @@ class Model:
                 tree = ast.parse(source, filename=path)
             except SyntaxError as e:  # a tree that does not compile is not analysable
                 raise AnalysisError(f"{path}: syntax error {e}")
+            from .desugar import desugar_module
+            counts = desugar_module(tree)
+            self.desugared = getattr(self, "desugared", {})
+            if any(counts.values()):
+                self.desugared[modname] = {k: v for k, v in counts.items() if v}
             self.modules[modname] = ModuleInfo(modname, path, source, tree)
         self.digest = "sha256:" + h.hexdigest()
         for m in self.modules.values():
